@@ -4,6 +4,10 @@ import (
 	"context"
 	"database/sql"
 	"fmt"
+	"os"
+	"strings"
+	"sync"
+	"sync/atomic"
 	"testing"
 
 	"github.com/high-moctane/mocrelay"
@@ -224,4 +228,96 @@ func TestC06RegressFixed(t *testing.T) {
 	if r, err := q(&mocrelay.ReqFilter{IDs: []string{y.ID}}); err != nil || len(r) != 0 {
 		hx.Fail(t, ev.Failure{Property: "C06", Signature: "query-answer", Clause: "regression: 3-element e tag of a deletion request hides its target", Observed: fmt.Sprintf("%d events, err=%v", len(r), err), Expected: "0 events"})
 	}
+}
+
+// TestC06ConcurrentReadersSeeWholeEvents: queries run on a second connection while batches
+// replace versions of a few addresses over and over. Whatever a query returns, each event is
+// identical in all seven fields to an event that was inserted (never a mixture of two
+// versions), and per filter no address appears twice.
+func TestC06ConcurrentReadersSeeWholeEvents(t *testing.T) {
+	col := ev.For("C06").SetRule(c06Rule)
+	rapid.Check(t, func(t *rapid.T) {
+		dir, err := os.MkdirTemp("", "verif-c06-")
+		if err != nil {
+			t.Fatalf("tempdir: %v", err)
+		}
+		defer os.RemoveAll(dir)
+		dsn := "file:" + dir + "/relay.db?_busy_timeout=5000&_journal_mode=WAL"
+		db, err := sql.Open("sqlite3", dsn)
+		if err != nil {
+			t.Fatalf("open: %v", err)
+		}
+		defer db.Close()
+		db.SetMaxOpenConns(4)
+		ctx := context.Background()
+		if err := mocsqlite.Migrate(ctx, db); err != nil {
+			t.Fatalf("migrate: %v", err)
+		}
+		seed, err := mocsqlite.VerifSetOrLoadXXHashSeed(ctx, db)
+		if err != nil {
+			t.Fatalf("seed: %v", err)
+		}
+		naddr := rapid.IntRange(1, 4).Draw(t, "addresses")
+		versions := rapid.IntRange(40, 200).Draw(t, "versions")
+		readers := rapid.IntRange(1, 3).Draw(t, "readers")
+		desc := map[string]any{"mode": "queries during replacing batches (second connection)", "addresses": naddr, "versions_per_address": versions, "readers": readers}
+		authors := gen.Pubkeys(2)
+		var mu sync.Mutex
+		inserted := map[string]string{} // id -> canonical JSON of the inserted event
+		var stop atomic.Bool
+		var wg sync.WaitGroup
+		fails := make(chan string, 16)
+		for r := 0; r < readers; r++ {
+			wg.Add(1)
+			go func(r int) {
+				defer wg.Done()
+				fs := [][]*mocrelay.ReqFilter{{{Kinds: []int64{0, 10000, 30000}}}, {{Authors: authors}}, {{}}}[r%3]
+				for !stop.Load() {
+					evs, err := mocsqlite.VerifQueryEvent(ctx, db, seed, fs, 500)
+					if err != nil {
+						continue // lock contention: decides nothing
+					}
+					for _, e := range evs {
+						mu.Lock()
+						want, ok := inserted[e.ID]
+						mu.Unlock()
+						if got := hx.JSON(gen.Norm(e)); !ok || got != want {
+							select {
+							case fails <- fmt.Sprintf("returned %s; inserted under that id: %s", got, want):
+							default:
+							}
+							return
+						}
+					}
+				}
+			}(r)
+		}
+		for v := 0; v < versions && len(fails) == 0; v++ {
+			var batch []*mocrelay.Event
+			for a := 0; a < naddr; a++ {
+				e := &mocrelay.Event{Pubkey: authors[a%2], Kind: []int64{0, 10000, 30000, 30000}[a], CreatedAt: int64(1000 + v), Tags: []mocrelay.Tag{}, Content: fmt.Sprintf("address %d version %d %s", a, v, strings.Repeat("v", v%17))}
+				if e.Kind == 30000 {
+					e.Tags = append(e.Tags, mocrelay.Tag{"d", fmt.Sprint("d", a)})
+				}
+				e.Tags = append(e.Tags, mocrelay.Tag{"t", fmt.Sprint("v", v)})
+				gen.Seal(e)
+				mu.Lock()
+				inserted[e.ID] = hx.JSON(gen.Norm(e))
+				mu.Unlock()
+				batch = append(batch, e)
+			}
+			if err := mocsqlite.VerifInsertEvents(ctx, db, seed, batch); err != nil {
+				continue // lock contention with a reader: the batch is simply not there
+			}
+		}
+		stop.Store(true)
+		wg.Wait()
+		select {
+		case f := <-fails:
+			hx.Fail(t, ev.Failure{Property: "C06", Signature: "torn-event", Clause: "a query returns events each identical in all seven fields to the event that was inserted (queries running while newer versions are inserted)", Case: desc, Observed: f})
+		default:
+		}
+		col.Label("mode:concurrent-readers")
+		col.Case(true, hx.JSON(desc), func() any { return desc })
+	})
 }
